@@ -40,6 +40,8 @@ var prefix = []fsx.Op{
 	{K: "Chmod", P: "/w", Perm: 0o777},
 	// a sibling whose name extends another directory's name (paths related as strings, not as ancestors)
 	{K: "Mkdir", P: "/w/ab", Perm: 0o777}, {K: "WriteFile", P: "/w/ab/y", Data: "ABY", Perm: 0o666},
+	// a symbolic link (where supported): Lchown is the one call that changes a link node in place
+	{K: "Symlink", P: "a/x", P2: "/w/sl"},
 }
 
 func raceLog() string {
@@ -352,6 +354,8 @@ var fileOps = []fsx.Op{
 	{K: "Open", P: "/w/a", Flag: os.O_RDONLY, H: 1}, {K: "FReadDir", H: 1, N: 1}, {K: "FReaddirnames", H: 1, N: -1}, {K: "FClose", H: 1},
 	{K: "Rename", P: "/w/a/x", P2: "/w/ab/x"}, {K: "Rename", P: "/w/ab/x", P2: "/w/a/x"}, {K: "Rename", P: "/w/ab/y", P2: "/w/a/y"}, {K: "Rename", P: "/w/a/y", P2: "/w/ab/y"},
 	{K: "Open", P: "/w/ab", Flag: os.O_RDONLY, H: 2}, {K: "FReadDir", H: 2, N: -1}, {K: "FStat", H: 2}, {K: "FClose", H: 2}, {K: "FStat", H: 1}, {K: "FReadDir", H: 1, N: -1},
+	{K: "Lchown", P: "/w/sl", Uid: 1001, Gid: 1002}, {K: "Lchown", P: "/w/sl", Uid: 0, Gid: 0}, {K: "Lstat", P: "/w/sl"}, {K: "ReadDir", P: "/w"}, {K: "Readlink", P: "/w/sl"},
+	{K: "Chown", P: "/w/a/x", Uid: 1001, Gid: -1}, {K: "Lstat", P: "/w/a/x"},
 	// the handle shared by two goroutines (slot 9)
 	{K: "FRead", H: 9, N: 3}, {K: "FWrite", H: 9, Data: "s"}, {K: "FSeek", H: 9, Off: 0, Whence: 0}, {K: "FStat", H: 9}, {K: "FReadAt", H: 9, N: 2, Off: 0}, {K: "FWriteAt", H: 9, Data: "S", Off: 1}, {K: "FTruncate", H: 9, Size: 3}, {K: "FName", H: 9},
 }
